@@ -13,7 +13,7 @@ All theorems are about the executable model the driver runs (`Model/C10.lean`:
   memo cell is empty or filled;
 * `createCache m0 = .ok k0`: the model evaluates at its own initial state.
 -/
-import MxlVerif.Lemmas.C10Misc
+import MxlVerif.Lemmas.C10RhsNames
 namespace Mxl.C10
 
 /-! ## the refinement: every read answers what the stateless pointwise specification says -/
@@ -117,6 +117,23 @@ example : queryOk witnessRes witnessContent (.prodCons false "y" true (.list [2,
       | .ok (v, _) => viewEntry v
       | .error _ => none) = some 2 := by
   constructor <;> decide +kernel
+
+/-- non-vacuity of the main theorem on a two-segment result with a parameter change
+    between the segments (`k = 2`, then `k = -3`), read after the owner of the model set
+    `k = 5`: the read succeeds and its last row is the specification's -/
+example :
+    let res : Res :=
+      { rawVars := [[(0, [("x", 1), ("y", 3)])], [(1, [("x", 5), ("y", 1)]), (2, [("x", 2), ("y", 4)])]],
+        rawPars := [[("k", 2)], [("k", -3)]] }
+    let st : St := { model := { witnessContent with pars := [("k", .plain 5)] } }
+    queryOk res witnessContent (.rhs .none true) = true ∧
+    (match read res (.rhs .none true) st with
+      | .ok (.frame t, st') => (t.getLast?.map (·.2), st'.model.pars.map (·.1))
+      | _ => (none, [])) = (some [("x", -24), ("y", 12)], ["k"]) ∧
+    (match specRead res witnessContent (.rhs .none true) with
+      | .ok (.frame t) => t.getLast?.map (·.2)
+      | _ => none) = some [("x", -24), ("y", 12)] := by
+  refine ⟨rfl, ?_, ?_⟩ <;> decide +kernel
 
 /-! ## reading repeatedly, in any order, after any parameter change -/
 
@@ -306,6 +323,26 @@ theorem C10_rhs_row_is_core_rhs {c : Content} {cache : Cache} {t : Rat} {s full 
   simp only [bind, Except.bind, hc, resolveVars, Option.getD_some, hdep]
   exact rhsFromArgs_congr hagree
 
+/-- the hypothesis of the previous theorem, discharged from structural facts about the
+    model (`RhsNamesOk`, computable as `rhsNamesOkB`: every name the stoichiometry reads is
+    `time` or a reported column, none is a readout or a data set, nothing computed is called
+    `time`): **the reported derivative is the core's derivative at the row's state and time
+    under the segment's parameters** -/
+theorem C10_reported_derivative_is_core_derivative {c : Content} {cache : Cache} {t : Rat}
+    {s full : Row} (hok : rhsNamesOkB c cache = true) (hc : createCache c = .ok cache)
+    (hfull : pointRow c t s = .ok full) :
+    rhsFromArgs cache (omKeys c.vars) (("time", t) :: full) = getRhsQ c (some s) t := by
+  cases hg : getArgsEnv c cache s t with
+  | error e => simp [pointRow, hc, pointEnv, hg] at hfull
+  | ok dep =>
+    exact C10_rhs_row_is_core_rhs hc hg (row_agrees (rhsNamesOk_of_B hok) hc hg hfull)
+
+/-- non-vacuity: the structural check holds for the witness model (which has a
+    state-dependent computed coefficient) -/
+example : (match createCache witnessContent with
+    | .ok cache => rhsNamesOkB witnessContent cache
+    | .error _ => false) = true := by decide +kernel
+
 /-! ## concatenated view = per-segment views stacked in order -/
 
 /-- **Concatenated = stacked.**  For the argument views (hence variables and fluxes) and
@@ -367,6 +404,58 @@ theorem C10_concat_is_stack_rhs {res : Res} {n : Norm} {st st' : St} {v : View} 
         · rename_i v' hv'
           cases hF
           rw [adjust_concat.2 ⟨F, hv', hne, hv⟩]
+
+/-- the same for producers / consumers, which concatenate on their own -/
+theorem C10_concat_is_stack_prodcons {res : Res} {prod : Bool} {x : Name} {sc : Bool} {n : Norm}
+    {st st' : St} {v : View} :
+    getProdConsV res prod x sc n true st = .ok (v, st') ↔
+      ∃ F, getProdConsV res prod x sc n false st = .ok (.frames F, st') ∧ F ≠ [] ∧
+        v = .frame F.flatten := by
+  unfold getProdConsV
+  cases res.rawPars with
+  | nil => simp
+  | cons p0 rest =>
+    simp only
+    cases withPars st.model p0 with
+    | error e => simp
+    | ok c0 =>
+      simp only
+      cases stoichOfVar c0 x with
+      | error e => simp
+      | ok s0 =>
+        simp only
+        cases getFluxesV res true n false { st with model := c0 } with
+        | error e => simp
+        | ok y =>
+          obtain ⟨view, st1⟩ := y
+          cases view with
+          | frame t => simp
+          | dict d => simp
+          | frames tabs =>
+            simp only
+            cases mapE (selectTable (pickNames prod s0)) tabs with
+            | error e => simp
+            | ok sel =>
+              simp only
+              cases (if sc = true then
+                  scaleLoop x (pickNames prod s0) (if prod = true then 1 else -1) st1.model sel (p0 :: rest)
+                else Except.ok (sel, st1.model)) with
+              | error e => simp
+              | ok z =>
+                obtain ⟨out, c⟩ := z
+                simp only [if_true, Bool.false_eq_true, if_false]
+                constructor
+                · intro h
+                  split at h
+                  · cases h
+                  · rename_i hne
+                    cases h
+                    exact ⟨out, rfl, by simpa using hne, rfl⟩
+                · intro ⟨F, hF, hne, hv⟩
+                  cases hF
+                  subst hv
+                  have : out.isEmpty = false := by cases out <;> simp_all
+                  simp [this]
 
 /-! ## normalisation: scalar, per segment, per row -/
 
